@@ -20,7 +20,7 @@ func (eng *Engine) buildVCWith(fn *ssa.Function, con *Contract, key string) (vc 
 	vc = &FnVC{eng: eng, fn: fn, key: key, con: con, sorts: newSorts(eng.tags), declSeen: map[string]bool{},
 		regs: map[ssa.Value]Val{}, tuples: map[ssa.Value][]Val{}, addrs: map[ssa.Value]*Addr{}, exitSt: map[*ssa.BasicBlock]*State{},
 		keySort: map[string]Sort{}, notes: map[string]bool{}, occ: map[string]int{}, allocNames: map[string][]*ssa.Alloc{},
-		paramVals: map[string]Val{}, callOcc: map[string]int{}, trustedUsed: map[string]bool{}, calleesUsed: map[string]bool{},
+		paramVals: map[string]Val{}, objInfo: map[string]*freshObj{}, callOcc: map[string]int{}, trustedUsed: map[string]bool{}, calleesUsed: map[string]bool{},
 		rangeIters: map[ssa.Value]*rangeIter{}, witKeys: map[string]bool{}, tablesUsed: map[string]bool{}, tableInfo: map[string]*tableInfo{},
 		pins: map[string][][2]string{}, declBySort: map[string][]string{}, ptrCells: map[*ssa.Alloc]*Addr{}, privSlices: map[*ssa.Alloc]bool{}}
 	defer func() {
@@ -198,6 +198,11 @@ func (eng *Engine) buildVCWith(fn *ssa.Function, con *Contract, key string) (vc 
 				k2 := vc.sorts.sortOf(pt.Elem())
 				cv := Val{vc.define("cap_"+fv.Name(), k2, vc.load(a)), pt.Elem(), k2}
 				vc.paramVals[fv.Name()] = cv
+				if capturedHoldsNewObject(fn, i) {
+					// the enclosing function assigns this variable exactly once, with a freshly allocated object, and nobody
+					// reassigns it: inside the closure it is that (non-nil) object
+					vc.assume(sNot(sEq(cv.S, "0")))
+				}
 				vc.assume(vc.typeFacts(cv))
 				vc.assume(vc.regimeFacts(cv.S, pt.Elem(), 0))
 				vc.assumeTypeInv(cv, false)
@@ -302,6 +307,47 @@ func parentAllocStable(fn *ssa.Function, i int) bool {
 					}
 				}
 			}
+		}
+	}
+	return false
+}
+
+// capturedHoldsNewObject: free variable i of closure fn is bound to a variable of the enclosing function that is
+// assigned exactly once - with the address of a new object - and that no closure reassigns.
+func capturedHoldsNewObject(fn *ssa.Function, i int) bool {
+	p := fn.Parent()
+	if p == nil || !parentAllocStable(fn, i) {
+		return false
+	}
+	for _, b := range p.Blocks {
+		for _, ins := range b.Instrs {
+			mc, ok := ins.(*ssa.MakeClosure)
+			if !ok || mc.Fn != fn || i >= len(mc.Bindings) {
+				continue
+			}
+			a, ok := mc.Bindings[i].(*ssa.Alloc)
+			if !ok {
+				// captured through an enclosing closure: the same question one level up
+				if pfv, isFV := mc.Bindings[i].(*ssa.FreeVar); isFV {
+					for j, f := range p.FreeVars {
+						if f == pfv {
+							return capturedHoldsNewObject(p, j)
+						}
+					}
+				}
+				return false
+			}
+			n := 0
+			newObj := false
+			for _, r := range *a.Referrers() {
+				if st, ok := r.(*ssa.Store); ok && st.Addr == a {
+					n++
+					if v, ok := st.Val.(*ssa.Alloc); ok && v.Heap {
+						newObj = true
+					}
+				}
+			}
+			return n == 1 && newObj
 		}
 	}
 	return false
